@@ -10,6 +10,11 @@ def parseResp (tok : String) : Option Resp :=
     some { peer := nat! p, isBlock := kind == "b", rid := nat! rid, hdr := nat! hdr,
            sane := fl.getD 0 '0' == '1', merkle := fl.getD 1 '0' == '1', wit := fl.getD 2 '0' == '1',
            size := nat! size }
+  | [p, kind, rid, hdr, smw, size, sib] =>
+    let fl := smw.toList
+    some { peer := nat! p, isBlock := kind == "b", rid := nat! rid, hdr := nat! hdr,
+           sane := fl.getD 0 '0' == '1', merkle := fl.getD 1 '0' == '1', wit := fl.getD 2 '0' == '1',
+           size := nat! size, sib := nat! sib }
   | _ => none
 
 def parseVerdict : String → Option Verdict
@@ -31,7 +36,14 @@ def parseCall (ws : List String) : Option Call :=
 def parseEntry (s : String) : Lru.Entry :=
   match s.splitOn ":" with
   | [k, v, z] => ⟨nat! k, nat! v, nat! z⟩
+  | [k, v, z, _] => ⟨nat! k, nat! v, nat! z⟩
   | _ => ⟨0, 0, 0⟩
+
+/-- key of an entry whose 4th field says the cached block has another header hash -/
+def otherHdrKey (s : String) : Option Nat :=
+  match s.splitOn ":" with
+  | [k, _, _, "0"] => some (nat! k)
+  | _ => none
 
 /-- `x` = {Finished: true, Progressed: false}: for the oracle it is a Finished (and a DIFF, see `badProg`) -/
 def parseProg : String → Progress
@@ -63,7 +75,8 @@ def parseObs (s : String) : Option ImplObs :=
           | ["err", kind] => some (.err kind)
           | _ => none
         result.map fun r =>
-          { obs := { result := r, prog := pr.map parseProg, bans := bans.map nat!, cache := ents.map parseEntry },
+          { obs := { result := r, prog := pr.map parseProg, bans := bans.map nat!, cache := ents.map parseEntry,
+                     cacheOther := ents.filterMap otherHdrKey },
             queries := nat! ((q.drop 1).toString.replace "!" ""), raw := q, badProg := pr.any (fun p => p != "n" && p != "f") }
       | _ => none
     | _ => none
